@@ -1062,7 +1062,30 @@ func (e *Engine) writeTo(w IfaceV, msg Value) Value {
 
 // ---- deep equality over heap graphs (nil slice == empty slice) ----
 
+// deepEqual compares heap graphs. Struct fields named StartPos (absolute file positions recorded
+// while decoding) are not part of the comparison.
 func (e *Engine) deepEqual(a, b Value, seen map[[2]*Cell]bool, depth int) *Term {
+	return e.deepEqualT(a, b, nil, seen, depth)
+}
+
+func elemType(t types.Type) types.Type {
+	if t == nil {
+		return nil
+	}
+	switch u := t.Underlying().(type) {
+	case *types.Pointer:
+		return u.Elem()
+	case *types.Slice:
+		return u.Elem()
+	case *types.Array:
+		return u.Elem()
+	case *types.Map:
+		return u.Elem()
+	}
+	return nil
+}
+
+func (e *Engine) deepEqualT(a, b Value, t types.Type, seen map[[2]*Cell]bool, depth int) *Term {
 	ts := e.ts
 	if depth > 200 {
 		e.inconclusive("DeepEqual depth")
@@ -1079,7 +1102,7 @@ func (e *Engine) deepEqual(a, b Value, seen map[[2]*Cell]bool, depth int) *Term 
 		if !types.Identical(x.t, y.t) {
 			return ts.False
 		}
-		return e.deepEqual(x.v, y.v, seen, depth+1)
+		return e.deepEqualT(x.v, y.v, x.t, seen, depth+1)
 	case Ptr:
 		y, ok := b.(Ptr)
 		if !ok {
@@ -1097,15 +1120,29 @@ func (e *Engine) deepEqual(a, b Value, seen map[[2]*Cell]bool, depth int) *Term 
 			return ts.True
 		}
 		seen[k] = true
-		return e.deepEqual(x.c.v, y.c.v, seen, depth+1)
+		return e.deepEqualT(x.c.v, y.c.v, elemType(t), seen, depth+1)
 	case *StructV:
 		y, ok := b.(*StructV)
 		if !ok || len(x.f) != len(y.f) {
 			return ts.False
 		}
 		r := ts.True
+		var st *types.Struct
+		if t != nil {
+			st, _ = t.Underlying().(*types.Struct)
+			if st != nil && st.NumFields() != len(x.f) {
+				st = nil
+			}
+		}
 		for i := range x.f {
-			r = ts.And(r, e.deepEqual(x.f[i].v, y.f[i].v, seen, depth+1))
+			var ft types.Type
+			if st != nil {
+				if st.Field(i).Name() == "StartPos" {
+					continue
+				}
+				ft = st.Field(i).Type()
+			}
+			r = ts.And(r, e.deepEqualT(x.f[i].v, y.f[i].v, ft, seen, depth+1))
 			if r == ts.False {
 				return r
 			}
@@ -1118,7 +1155,7 @@ func (e *Engine) deepEqual(a, b Value, seen map[[2]*Cell]bool, depth int) *Term 
 		}
 		r := ts.True
 		for i := range x.e {
-			r = ts.And(r, e.deepEqual(x.e[i].v, y.e[i].v, seen, depth+1))
+			r = ts.And(r, e.deepEqualT(x.e[i].v, y.e[i].v, elemType(t), seen, depth+1))
 			if r == ts.False {
 				return r
 			}
@@ -1131,7 +1168,7 @@ func (e *Engine) deepEqual(a, b Value, seen map[[2]*Cell]bool, depth int) *Term 
 		}
 		r := ts.True
 		for i := 0; i < x.len; i++ {
-			r = ts.And(r, e.deepEqual(x.arr.e[x.off+i].v, y.arr.e[y.off+i].v, seen, depth+1))
+			r = ts.And(r, e.deepEqualT(x.arr.e[x.off+i].v, y.arr.e[y.off+i].v, elemType(t), seen, depth+1))
 			if r == ts.False {
 				return r
 			}
@@ -1162,7 +1199,7 @@ func (e *Engine) deepEqual(a, b Value, seen map[[2]*Cell]bool, depth int) *Term 
 				if o == nil {
 					return ts.False
 				}
-				r = ts.And(r, e.deepEqual(en.v, o.v, seen, depth+1))
+				r = ts.And(r, e.deepEqualT(en.v, o.v, elemType(t), seen, depth+1))
 			}
 		}
 		return r
